@@ -415,6 +415,16 @@ func ruleRegisterCallers(c *Ctx) []Obligation {
 				}
 			}
 			okArg := strings.Contains(arg, ".content")
+			if !okArg {
+				// through an accessor of the token that returns its content (t.text(), packagePath(code))
+				if call, isCall := stripConv(ci.Common().Args[1]).(*ssa.Call); isCall {
+					okArg = c.returnsTokenContent(call)
+				} else if ex, isEx := stripConv(ci.Common().Args[1]).(*ssa.Extract); isEx {
+					if call, isCall := ex.Tuple.(*ssa.Call); isCall {
+						okArg = c.returnsTokenContent(call)
+					}
+				}
+			}
 			isRender := false
 			for _, r := range c.codeImpls(c.renderName()) {
 				if r == f {
@@ -444,6 +454,26 @@ func ruleRegisterCallers(c *Ctx) []Obligation {
 			// register
 			if !okTok && !isRender && c.onlyReachedFrom(f, isTokRender, 2) {
 				okTok = true
+			}
+			// the test may sit in a comma-ok accessor: `path, ok := packagePath(code)` answers ok only
+			// for a package token
+			if !okTok {
+				for atom, pol := range facts {
+					if !pol {
+						continue
+					}
+					for _, b := range f.Blocks {
+						for _, in := range b.Instrs {
+							call, isCall := in.(*ssa.Call)
+							if !isCall || !strings.HasPrefix(atom, a.Desc(call)) {
+								continue
+							}
+							if sc := call.Call.StaticCallee(); sc != nil && c.inModule(sc) && c.okOnlyForPackageToken(sc) {
+								okTok = true
+							}
+						}
+					}
+				}
 			}
 			o.req(okTok && okArg && okCaller, fname(f), "call of registration function", ci.Pos(),
 				"registration must happen only while a package token is being rendered (token.render) or pre-registered by the list renderer; facts=%s arg=%s", facts, arg)
@@ -586,10 +616,8 @@ func (c *Ctx) globalUseOK(v ssa.Value, depth int) (bool, string) {
 					continue // documented safe for concurrent use
 				}
 				pk := ""
-				if sc.Pkg != nil {
-					pk = sc.Pkg.Pkg.Path()
-				}
-				if pureExternal[n] || purePkgs[pk] {
+				pk = pkgPathOf(sc)
+				if pureExternal[n] || purePkgs[pk] || readOnlyStd(sc) {
 					continue
 				}
 				if sum := c.CG().Sum[sc]; sum != nil {
@@ -843,9 +871,8 @@ func nondetUses(c *Ctx, funcs []*ssa.Function) []string {
 		for _, ci := range a.calls() {
 			cc := ci.Common()
 			if sc := cc.StaticCallee(); sc != nil && !cc.IsInvoke() {
-				pk := ""
-				if sc.Pkg != nil {
-					pk = sc.Pkg.Pkg.Path()
+				pk := pkgPathOf(sc)
+				if pk != "" {
 				} else if r := sc.Signature.Recv(); r != nil {
 					t := r.Type()
 					if p, ok := t.(*types.Pointer); ok {
@@ -1208,6 +1235,14 @@ func rulePanics(c *Ctx) []Obligation {
 			seen[k] = true
 			// documented exception: default case of the literal type switch in token.render
 			_ = tokRender
+			if unreach, why := c.panicUnreachableOnPaths(ef); unreach {
+				o.add(Discharged, ef.Via, "panic site not reached on any path of the renderers that lead to it", ef.Pos, true, "%s", why)
+				continue
+			}
+			if c.mustHelperPanic(ef) {
+				o.add(Discharged, ef.Via, "panic of a Must… helper with the error of the call it wraps", ef.Pos, true, "an exported function whose name starts with Must panics by convention instead of returning the error; the error-returning form is what the property speaks about")
+				continue
+			}
 			if c.isLitDefaultPanic(ef) || c.litPanicOnPaths(ef.Pos) {
 				o.add(Discharged, ef.Via, "panic for unsupported literal type (documented: \"Passing any other type will panic\")", ef.Pos, true, "reachable from %s", fname(e))
 				continue
@@ -1732,7 +1767,12 @@ func (c *Ctx) saveOnPaths(o *obs, save *ssa.Function) {
 			if noFormat {
 				okData = nfmt == 0 && strings.Contains(ds, "rendered("+renderEv.Res.String()+")")
 			} else if fmtEv != nil && len(fmtEv.Args) == 1 {
-				okData = ds == fmtEv.Res.String()+"#0" && strings.Contains(fmtEv.Args[0].String(), "rendered("+renderEv.Res.String()+")")
+				same := ds == fmtEv.Res.String()+"#0"
+				if !same {
+					ts := segsString(termTemplate(data))
+					same = ts == "[%s("+fmtEv.Res.String()+"#0)]" || ts == "[%v("+fmtEv.Res.String()+"#0)]"
+				}
+				okData = same && strings.Contains(fmtEv.Args[0].String(), "rendered("+renderEv.Res.String()+")")
 			}
 		}
 		t.note("the data written is exactly the rendered (and formatted) output", okData, "path %s writes %v", traceOf(p), data)
@@ -1873,4 +1913,266 @@ func ruleNoFormatReaders(c *Ctx) []Obligation {
 		o.undecided("jen.File", "NoFormat", token.NoPos, "anchor lost: no read of File.NoFormat found (the formatter gate)")
 	}
 	return o.list
+}
+
+// returnsTokenContent: the call is to a function of the module every (first) result of which is
+// the content field of a token — its receiver, or a token obtained from its argument.
+func (c *Ctx) returnsTokenContent(call *ssa.Call) bool {
+	sc := call.Call.StaticCallee()
+	if sc == nil || !c.inModule(sc) || sc.Blocks == nil {
+		return false
+	}
+	a := c.FA(sc)
+	rs := a.returns()
+	if len(rs) == 0 {
+		return false
+	}
+	n := 0
+	for _, r := range rs {
+		if len(r.Results) == 0 {
+			return false
+		}
+		v := r.Results[0]
+		if k, isC := v.(*ssa.Const); isC && (k.Value == nil || k.IsNil() || k.Value.String() == `""`) {
+			continue // the "not a package token" answer of a comma-ok accessor
+		}
+		if !strings.Contains(a.Desc(v), ".content") {
+			return false
+		}
+		n++
+	}
+	return n > 0
+}
+
+// okOnlyForPackageToken: a function with a trailing bool result that is true only on paths that
+// have established typ == "package" for a token.
+func (c *Ctx) okOnlyForPackageToken(f *ssa.Function) bool {
+	rs := f.Signature.Results()
+	if rs.Len() < 2 {
+		return false
+	}
+	if b, ok := rs.At(rs.Len()-1).Type().Underlying().(*types.Basic); !ok || b.Kind() != types.Bool {
+		return false
+	}
+	paths, trunc := c.Paths(f, PXConfig{MaxDepth: 2, MaxVisits: 2})
+	if trunc || len(paths) == 0 {
+		return false
+	}
+	sawTrue := false
+	for _, p := range paths {
+		if p.End != "return" || len(p.Ret) != rs.Len() {
+			continue
+		}
+		last := p.Ret[len(p.Ret)-1]
+		bv, isB := last.boolVal()
+		if isB && !bv {
+			continue
+		}
+		// true, or not known to be false: the path must know it has a package token
+		has := false
+		for atom, pol := range p.Facts {
+			if pol && strings.HasPrefix(atom, `eq("package",`) && strings.HasSuffix(atom, ".typ)") {
+				has = true
+			}
+		}
+		if !has {
+			return false
+		}
+		sawTrue = true
+	}
+	return sawTrue
+}
+
+// panicUnreachableOnPaths: the explicit panic of effect ef lies in a function that only render /
+// isNull implementations (and the list renderer) reach, and no path of any of those roots, helpers
+// inlined, ends at it: the branch it guards is decided the other way by what the path knows (a
+// checked type assertion on a token's content whose type the token type determines).
+func (c *Ctx) panicUnreachableOnPaths(ef Effect) (bool, string) {
+	g := c.CG()
+	var site *ssa.Function
+	for _, f := range g.Funcs {
+		if fname(f) == ef.Via {
+			site = f
+		}
+	}
+	if site == nil {
+		return false, ""
+	}
+	var roots []*ssa.Function
+	cands := append(append([]*ssa.Function{}, c.codeImpls(c.renderName())...), c.codeImpls(c.nullName())...)
+	if ri := c.role("renderItems"); ri != nil {
+		cands = append(cands, ri)
+	}
+	stdO := c.stdOpaque()
+	// reachable by calls that the path engine evaluates in line: not through another renderer
+	inlineReach := func(r *ssa.Function) map[*ssa.Function]bool {
+		seen := map[*ssa.Function]bool{}
+		var walk func(f *ssa.Function)
+		walk = func(f *ssa.Function) {
+			if f == nil || seen[f] || g.Sum[f] == nil {
+				return
+			}
+			seen[f] = true
+			for cal := range g.Sum[f].Callees {
+				if cal != r && stdO(cal) {
+					continue
+				}
+				walk(cal)
+			}
+		}
+		walk(r)
+		return seen
+	}
+	reachOf := map[*ssa.Function]map[*ssa.Function]bool{}
+	for _, r := range cands {
+		reachOf[r] = inlineReach(r)
+		if r == site || reachOf[r][site] {
+			roots = append(roots, r)
+		}
+	}
+	if len(roots) == 0 {
+		return false, ""
+	}
+	// a root that reaches the site only by way of another root adds nothing: the inner root is
+	// judged without any of the outer one's assumptions
+	var inner []*ssa.Function
+	for _, r := range roots {
+		// is the site still reachable from r when the other roots are not entered?
+		seen := map[*ssa.Function]bool{}
+		var walk func(f *ssa.Function) bool
+		walk = func(f *ssa.Function) bool {
+			if f == site {
+				return true
+			}
+			if f == nil || seen[f] || g.Sum[f] == nil {
+				return false
+			}
+			seen[f] = true
+			for cal := range g.Sum[f].Callees {
+				if cal != r && stdO(cal) {
+					continue
+				}
+				isOther := false
+				for _, r2 := range roots {
+					if r2 != r && cal == r2 && !reachOf[r2][r] {
+						isOther = true
+					}
+				}
+				if isOther {
+					continue
+				}
+				if walk(cal) {
+					return true
+				}
+			}
+			return false
+		}
+		if walk(r) {
+			inner = append(inner, r)
+		}
+	}
+	if len(inner) > 0 {
+		roots = inner
+	}
+	// every caller chain into the site must start at one of these roots: the site's function is
+	// unexported and only reached from them
+	if site.Parent() == nil && isExportedName(site.Name()) {
+		return false, ""
+	}
+	std := c.stdOpaque()
+	n := 0
+	for _, r := range roots {
+		self := r
+		// keep the other Code implementations opaque, but inline plain helpers
+		opq := func(h *ssa.Function) bool { return h != self && std(h) }
+		paths, trunc := c.Paths(r, PXConfig{Opaque: opq, MaxVisits: 3, MaxDepth: 4, MaxIndex: 3, MaxPaths: 60000})
+		if trunc || len(paths) == 0 {
+			return false, ""
+		}
+		// the site must be inlined here unless another root covers it
+		for _, p := range paths {
+			n++
+			if p.End != "panic" || len(p.Events) == 0 {
+				continue
+			}
+			pe := p.Events[len(p.Events)-1]
+			if pe.In != nil && pe.In.Pos() == ef.Pos {
+				return false, ""
+			}
+		}
+	}
+	// the direct callers of the site's function must all be among the roots' inlined closure
+	for _, cl := range g.callersOf(site) {
+		covered := false
+		for _, r := range roots {
+			if cl == r || reachOf[r][cl] {
+				covered = true
+			}
+		}
+		if !covered {
+			return false, ""
+		}
+	}
+	return true, fmt.Sprintf("%d paths of %d renderer(s) that reach %s, helpers inlined: none ends at this panic (the test that guards it is decided by the token type the path has established)", n, len(roots), ef.Via)
+}
+
+// mustHelperPanic: the panic lies in an exported function or method named Must…, and what it
+// panics with is an error value returned by a call made in that function.
+func (c *Ctx) mustHelperPanic(ef Effect) bool {
+	for _, f := range c.CG().Funcs {
+		if fname(f) != ef.Via || f.Parent() != nil || !strings.HasPrefix(f.Name(), "Must") || !isExportedName(f.Name()) {
+			continue
+		}
+		for _, b := range f.Blocks {
+			for _, in := range b.Instrs {
+				pn, ok := in.(*ssa.Panic)
+				if !ok || pn.Pos() != ef.Pos {
+					continue
+				}
+				v := stripConv(pn.X)
+				if mi, ok := v.(*ssa.MakeInterface); ok {
+					v = stripConv(mi.X)
+				}
+				switch x := v.(type) {
+				case *ssa.Call:
+					return isErrorType(x.Type())
+				case *ssa.Extract:
+					return isErrorType(x.Type())
+				case *ssa.Phi:
+					return isErrorType(x.Type())
+				}
+			}
+		}
+	}
+	return false
+}
+
+// isWriterCarrier: the parameter is a small context object of the module (not the File, a Group or
+// a Statement) one of whose fields is the caller's writer.
+func isWriterCarrier(f *ssa.Function, idx int) bool {
+	if idx < 0 || idx >= len(f.Params) {
+		return false
+	}
+	t := f.Params[idx].Type()
+	if p, ok := t.Underlying().(*types.Pointer); ok {
+		t = p.Elem()
+	}
+	n, ok := t.(*types.Named)
+	if !ok {
+		return false
+	}
+	switch n.Obj().Name() {
+	case "File", "Group", "Statement":
+		return false
+	}
+	st, ok := n.Underlying().(*types.Struct)
+	if !ok {
+		return false
+	}
+	for i := 0; i < st.NumFields(); i++ {
+		if isWriterType(st.Field(i).Type()) {
+			return true
+		}
+	}
+	return false
 }
